@@ -20,6 +20,7 @@ import (
 
 	sdk "github.com/cosmos/cosmos-sdk/types"
 	authtypes "github.com/cosmos/cosmos-sdk/x/auth/types"
+	banktypes "github.com/cosmos/cosmos-sdk/x/bank/types"
 	distrtypes "github.com/cosmos/cosmos-sdk/x/distribution/types"
 	"github.com/jackalLabs/canine-chain/v4/app"
 	alltypes "github.com/jackalLabs/canine-chain/v4/types"
@@ -562,6 +563,21 @@ func (g *storageGen) next() (sdk.Msg, map[string]interface{}, func(pre, post stS
 				creator = f.Owner
 			}
 		}
+		if g.qr != nil {
+			switch g.qr.Intn(12) {
+			case 0: // no file starts at height 0
+				start = 0
+			case 1:
+				start, creator = 0, g.user()
+			case 2: // a shorter merkle: a prefix of the stored one
+				if len(merkle) > 1 {
+					merkle = merkle[:len(merkle)/2]
+				}
+			case 3:
+				merkle = []byte{}
+				start = 0
+			}
+		}
 		msg := &sttypes.MsgDeleteFile{Creator: creator, Merkle: merkle, Start: start}
 		return msg, map[string]interface{}{"deleteFile": map[string]interface{}{"creator": creator, "merkle": hex.EncodeToString(merkle), "start": start}}, nil
 	case k < m.buy+m.post+m.del+m.proof:
@@ -812,6 +828,24 @@ func runStorage(profile string, seed int64, histories, steps int, out *Emitter) 
 						Expires: []int64{1, 3, 20, 60}[r2.Intn(4)], FileSize: int64(len(data)), ProofInterval: sg.Params.ProofWindow, ProofType: 0,
 						Proofs: []string{}, MaxProofs: int64(1 + r2.Intn(3)), Note: `{"seeded":1}`})
 				}
+			}
+			if profile == "collateral" && hi%2 == 1 {
+				// more registered providers than one listing page holds, each with its collateral record,
+				// the escrow account funded accordingly (a genesis exported from a grown network)
+				var bg banktypes.GenesisState
+				cdc.MustUnmarshalJSON(gs[banktypes.ModuleName], &bg)
+				esc := authtypes.NewModuleAddress(sttypes.CollateralCollectorName).String()
+				total := int64(0)
+				for n := 0; n < 103; n++ {
+					addr := sdk.AccAddress([]byte(fmt.Sprintf("seeded-provider-%04d", n))).String()
+					amt := int64(1000 + n)
+					total += amt
+					sg.ProvidersList = append(sg.ProvidersList, sttypes.Providers{Address: addr, Ip: fmt.Sprintf("https://p%d.seeded.net", n), Totalspace: "1000000000", BurnedContracts: "0", Creator: addr, KeybaseIdentity: "", AuthClaimers: []string{}})
+					sg.CollateralList = append(sg.CollateralList, sttypes.Collateral{Address: addr, Amount: amt})
+				}
+				bg.Balances = append(bg.Balances, banktypes.Balance{Address: esc, Coins: sdk.NewCoins(sdk.NewInt64Coin("ujkl", total))})
+				bg.Supply = bg.Supply.Add(sdk.NewInt64Coin("ujkl", total))
+				gs[banktypes.ModuleName] = cdc.MustMarshalJSON(&bg)
 			}
 			gs[sttypes.ModuleName] = cdc.MustMarshalJSON(sg)
 			mg := minttypes.DefaultGenesis()
